@@ -14,7 +14,7 @@
 //! Requests
 //!   `<id>\tP\t<entry>\t<flags>\t<text>`   parse `text` with entry point `entry`
 //!        flags: `d` = answer with the JSON dump of the tree, `-` = verdict only
-//!        answers: `ok\t<rest_len>\t<json|->` | `err\t<nom kind>\t<where>\t<pos>` | `panic\t<msg>`
+//!        answers: `ok\t<rest_len>\t<json|->` | `err\t<nom kind>\t<where>\t<pos>:<slice len>` | `panic\t<msg>`
 //!   `<id>\tX\t<api>\t<state>\t<text>`     execute `text` through `api` against the database
 //!        state `state` (`<kind>:<seed>`), snapshotting before and after (C17)
 //!        answers: `res\t<json>` | `panic\t<msg>`
@@ -200,6 +200,10 @@ fn d_combined(c: &CombinedQuery) -> Value {
 fn locate(input: &str, e: &str) -> (String, i64) {
     let (a, b) = (input.as_ptr() as usize, input.as_ptr() as usize + input.len());
     let (x, y) = (e.as_ptr() as usize, e.as_ptr() as usize + e.len());
+    if e.is_empty() {
+        // (the comment skipper returns a static "" at the end of the input)
+        return ("suffix".into(), input.len() as i64);
+    }
     if x >= a && y <= b {
         let off = (x - a) as i64;
         if y == b {
@@ -222,7 +226,7 @@ fn err_line(input: &str, info: Option<(&str, String)>) -> String {
     match info {
         Some((slice, code)) => {
             let (w, off) = locate(input, slice);
-            format!("err\t{}\t{}\t{}", code, w, off)
+            format!("err\t{}\t{}\t{}:{}", code, w, off, slice.len())
         }
         None => "err\tIncomplete\t-\t-1".to_string(),
     }
@@ -303,6 +307,15 @@ fn build_state(kind: &str, seed: u64) -> Result<SparqlDatabase, String> {
             d.graphs.insert(ds::graph(7));
             let route = if r.coin() { Route::InsertData } else { Route::Direct };
             ds::load(&d, route)?
+        }
+        "numeric" => {
+            // every entity has a numeric p2 value and a p1 link: usable as features / labels
+            let mut d = Dataset::default();
+            for i in 0..6usize {
+                d.quads.insert((ds::ent(i), ds::pred(2), format!("{}", i % 4), ds::G::Default));
+                d.quads.insert((ds::ent(i), ds::pred(1), ds::ent((i + 1) % 6), ds::G::Default));
+            }
+            ds::load(&d, Route::InsertData)?
         }
         other => return Err(format!("unknown state kind {}", other)),
     };
